@@ -134,36 +134,57 @@ def unit_rule(rep, fn, vals):
 
 
 def who_may_call(rep, u):
+    """who-may-call in effect form: every call of tpt_ev_post outside the internal pvt registration sits behind a
+    tpt_ev_validate() == 0 test on the way (in whichever function the test and the call are written), and every public entry
+    registers through such a function."""
     callers = {}
     for fn in u.function_list:
         for pos, root, c, ps in fn.calls({"tpt_ev_post"}):
             callers.setdefault(fn.name, []).append(pos)
-    want = {"tpt_ev_post_validate", "tpt_data_event_init"}
+    internal = {"tpt_data_event_init"}
     fnp = tp.need(u, "tpt_ev_post")
-    (rep.proved if set(callers) == want else rep.violated)(
-        "R-MPT", fnp, "callers", "tpt_ev_post is called only by tpt_ev_post_validate and the internal pvt registration",
-        "callers: %s" % sorted(callers))
-    fv = tp.need(u, "tpt_ev_post_validate")
-    rep.functions.add(fv.name)
-    if "tpt_ev_post_validate" in callers:
+    validating = set()
+    for name, sites in sorted(callers.items()):
+        if name in internal:
+            continue
+        fv = u.fn(name)
+        rep.functions.add(name)
+        if not any(c.get("fn") == "tpt_ev_validate" for pos, root, c, ps in fv.calls()):
+            rep.violated("R-MPT", fv, "validator-called", "%s calls tpt_ev_post only after tpt_ev_validate" % name, "no call of tpt_ev_validate in the function")
+            continue
+        rep.proved("R-MPT", fv, "validator-called", "%s calls tpt_ev_validate" % name)
         res_ids = core.result_locals(fv, {"tpt_ev_validate"})
+        before = len([o for o in rep.obs if o.status == "violated"])
         r_mpt.check_guard(rep, fv, "tpt_ev_validate()==0",
                           lambda n, ps: (n.get("k") == "ref" and n.get("id") in res_ids) or (n.get("k") == "call" and n.get("fn") == "tpt_ev_validate"),
-                          (0, 22), (0,), targets=callers["tpt_ev_post_validate"], target_desc="tpt_ev_post call")
-    # the variable tested is the validator's result
-    ok = any(c.get("fn") == "tpt_ev_validate" for pos, root, c, ps in fv.calls())
-    (rep.proved if ok else rep.violated)("R-MPT", fv, "validator-called", "tpt_ev_post_validate calls tpt_ev_validate")
-    # every public entry goes through tpt_ev_post_validate(_args)
+                          (0, 22), (0,), targets=sites, target_desc="tpt_ev_post call")
+        if len([o for o in rep.obs if o.status == "violated"]) == before:
+            validating.add(name)
+    bad = sorted(set(callers) - internal - validating)
+    (rep.violated if bad or not validating else rep.proved)(
+        "R-MPT", fnp, "callers", "tpt_ev_post is called only behind a successful tpt_ev_validate (and by the internal pvt registration)",
+        ("unvalidated callers: %s" % bad) if bad else "validating callers: %s" % sorted(validating))
+    # every public entry registers through a validating function (itself, a wrapper, or another public entry)
     pub = ["tpt_ev_add", "tpt_ev_add_args", "tpt_ev_add_args2", "tpt_ev_del", "tpt_ev_del_args1", "tpt_ev_enable",
            "tpt_ev_enable_args", "tpt_ev_enable_args1"]
+    ok_set = set(validating)
+    changed = True
+    while changed:
+        changed = False
+        for nm in pub + [f.name for f in u.function_list if f.relfile() == tp.TP_C and f.has_cfg]:
+            f = u.fn(nm)
+            if f is None or nm in ok_set or not f.has_cfg:
+                continue
+            cs = {c.get("fn") for pos, root, c, ps in f.calls()}
+            if "tpt_ev_post" not in cs and cs & ok_set:
+                ok_set.add(nm)
+                changed = True
     for nm in pub:
         f = u.fn(nm)
         if f is None:
             continue
         rep.functions.add(nm)
-        ok = any(c.get("fn") in ("tpt_ev_post_validate", "tpt_ev_post_validate_args") for pos, root, c, ps in f.calls()) and \
-            not any(c.get("fn") == "tpt_ev_post" for pos, root, c, ps in f.calls())
-        (rep.proved if ok else rep.violated)("R-MPT", f, "entry-validates", "public entry %s registers only through the validating wrapper" % nm)
+        (rep.proved if nm in ok_set else rep.violated)("R-MPT", f, "entry-validates", "public entry %s registers only behind the validator" % nm)
     return len(pub)
 
 
@@ -661,7 +682,10 @@ def run(rep, tier):
     rep.floor("refusal obligations", c06_audit.refuse_rule(rep, u, vals, opt), 4)
     rep.floor("closes of pool-created descriptors", c06_audit.close_after_del_rule(rep, u), 5)
     rep.floor("tpdata marks and disabled stores", c06_audit.tpdata_bookkeeping_rule(rep, fp, fl_, vals), 3)
-    rep.floor("thread stores in the add entry points", c06_audit.add_target_rule(rep, u), 3)
+    rep.floor("thread stores in the add entry points", c06_audit.add_target_rule(rep, u), 1)
+    rep.floor("refusable adds", c06_audit.refused_add_rule(rep, u), 1)
+    rep.floor("descriptor-based ENOENT exits", c06_audit.tfd_kind_rule(rep, fp), 3)
+    c06_audit.tpdata_snapshot_rule(rep, fl_)
     return driver.finish(
         rep, "other",
         "Static analysis of the Linux (epoll) branch of threadpool.c; the BSD/kqueue branch is not compiled here and is NOT "
